@@ -37,6 +37,8 @@ monitor (cached per worker); if no unit program fails the key says ``composed(<p
 from __future__ import annotations
 
 import math
+import os
+import re
 
 import numpy as np
 
@@ -135,6 +137,11 @@ def plan(tier, seed):
             rng = np.random.default_rng([int(seed), 11, {"enum": 1, "pathwise": 2, "script": 3, "stat": 4}[fam], j])
             spec = R.gen_program(rng, fam)
             add(fam, spec, f"{fam}:{j}", n=(npts + 1 if fam != "stat" else max(1, npts // 2)))
+    for i, c in enumerate(cases):
+        c["index"] = i
+    flt = os.environ.get("VERIF_C11_FILTER")  # development aid: regular expression on the case tag
+    if flt:
+        cases = [c for c in cases if re.search(flt, c["tag"])]
     return cases
 
 
